@@ -117,7 +117,7 @@ def derive_seed(seed, shard):
     return int.from_bytes(h[:6], "big")
 
 
-def _shard_main(mod, tier, seed, shard, outdir, budget, known):
+def _shard_main(mod, tier, seed, shard, outdir, budget, known, nt_counter=None):
     from hypothesis import given, settings, seed as hseed, HealthCheck, Phase
     import hypothesis
     log = open(os.path.join(outdir, "shard%d.jsonl" % shard), "w")
@@ -146,7 +146,10 @@ def _shard_main(mod, tier, seed, shard, outdir, budget, known):
         if ck in cache:
             res = cache[ck]
         else:
-            over = (state["fail_t"] is None and now > gen_budget) or \
+            # the generation budget is extended (up to 3x) while the run as a whole has not yet reached its minimum number of
+            # non-trivial cases (slow machine / heavy cases): an under-explored run is worth less than a slightly longer one
+            short = nt_counter is not None and nt_counter.value < budget.get("min_nontrivial", 2) + 2
+            over = (state["fail_t"] is None and now > (gen_budget * 3 if short else gen_budget)) or \
                    (state["fail_t"] is not None and now > state["fail_t"] + shrink_budget)
             if over:
                 return  # budget exhausted: explored less, never a failure
@@ -159,6 +162,9 @@ def _shard_main(mod, tier, seed, shard, outdir, budget, known):
                            sample=None, inconclusive="harness exception: %r\n%s" % (e, traceback.format_exc()[-1500:]))
             cache[ck] = res
             state["n"] += 1
+            if nt_counter is not None and res.get("nontrivial") and not res.get("inconclusive"):
+                with nt_counter.get_lock():
+                    nt_counter.value += 1
             viol = [v for v in res.get("violations", []) if not key_matches(known, v["key"])]
             kn = [v for v in res.get("violations", []) if key_matches(known, v["key"])]
             record(dict(case=case, ck=ck, nontrivial=bool(res.get("nontrivial")), dkey=res.get("dkey"),
@@ -307,8 +313,9 @@ def main(mod, argv=None):
     reg_log.close()
     # 2) generation
     procs = []
+    nt_counter = multiprocessing.Value("i", 0)
     for s in range(budget["shards"]):
-        p = multiprocessing.Process(target=_shard_main, args=(mod, tier, a.seed, s, outdir, budget, known))
+        p = multiprocessing.Process(target=_shard_main, args=(mod, tier, a.seed, s, outdir, budget, known, nt_counter))
         p.start()
         procs.append(p)
     for p in procs:
